@@ -1,7 +1,7 @@
 """C14 Buffer trait implementations obey the pointer/length/initialisation laws."""
 import re
 
-from .kernel import (ExprBuilder, Loc, access_path, subexprs, variant_edges, is_local, const_val, E)
+from .kernel import (ExprBuilder, Loc, access_path, subexprs, variant_edges, is_local, const_val, E, table_loop_complete)
 from . import families as fam
 from . import addr
 from . import c10
@@ -124,8 +124,18 @@ def r2_order_coverage(r, facts):
                 for a in t['args']:
                     if a.get('k') == 'const' and 'fn' in a:
                         fnrefs.add(a['fn'])
-            r.inst('%s for [B; N]: maps %s' % (meth, sorted(fnrefs)), f.where())
-            r.require(any(x.endswith('::' + inner) for x in fnrefs), '%s/array' % meth, '%s of [B; N] does not fold the per-element %s' % (meth, inner), f.where())
+            # or written as an explicit loop: the per-element function is called on the element the iteration over
+            # `self` yields (for sums the loop must not be left early; all/any may short-circuit)
+            looped = False
+            ebl = ExprBuilder(f, multi='phi')
+            for loc, t in f.calls():
+                if (t.get('callee') or '').endswith('::' + inner) and t['args']:
+                    a = ebl.operand(t['args'][0])
+                    over_self = any(x[0] == 'call' and x[1] == 'std::iter::Iterator::next' and any(y[0] == 'arg' and y[1] == 1 for y in subexprs(x)) for x in subexprs(a))
+                    if over_self and (meth in ('is_empty', 'has_spare_capacity') or table_loop_complete(f, loc)):
+                        looped = True
+            r.inst('%s for [B; N]: maps %s%s' % (meth, sorted(fnrefs), ' (explicit loop)' if looped else ''), f.where())
+            r.require(looped or any(x.endswith('::' + inner) for x in fnrefs), '%s/array' % meth, '%s of [B; N] does not fold the per-element %s' % (meth, inner), f.where())
     # array set_init loop body has the same shape
     for i, f in facts.impl_fns('io::traits::BufMutSlice', 'set_init'):
         if i['self'].startswith('[B; N]'):
